@@ -401,6 +401,28 @@ func genC15(r *fw.Rng, tier string, emit func(fw.Case)) {
 					events = append(events, fmt.Sprintf("E%d", k))
 				}
 			}
+			// other orders a terminal may use: every 0x1211 up front, or none at all (the 0x1211 is informational: the
+			// records come from the 0x1210); a 0x1212 then names a file that is not the one announced last
+			switch r.Intn(4) {
+			case 0: // all B tokens first
+				var bs, rest []string
+				for _, e := range events[1:] {
+					if e[0] == 'B' {
+						bs = append(bs, e)
+					} else {
+						rest = append(rest, e)
+					}
+				}
+				events = append(append([]string{"A"}, bs...), rest...)
+			case 1: // no B tokens
+				var rest []string
+				for _, e := range events {
+					if e[0] != 'B' {
+						rest = append(rest, e)
+					}
+				}
+				events = rest
+			}
 			var fsS []string
 			for _, f := range files {
 				fsS = append(fsS, fw.Hex(f.name)+":"+fw.Hex(f.content))
